@@ -311,7 +311,8 @@ def rOctets (lb ub : Option Nat) (extensible : Bool) : Rd (List (BitVec 8)) := f
   else if lb.isSome && lb = ub && decide (upper < Consts.LENGTH_64K) then body upper false r0
   else do
     let (n, r1) ← rLen lb ub r0
-    body n true r1
+    -- only the unconstrained length determinant announces fragments
+    body n (lb.isNone && ub.isNone) r1
 
 /-! ### 16 bit string (same fragmentation, counted in bits) -/
 
@@ -390,6 +391,7 @@ def rBitString (lb ub : Option Nat) (extensible : Bool) : Rd Bits := fun bs => d
   else if lb.isSome && lb = ub && decide (upper < Consts.LENGTH_64K) then body upper false r0
   else do
     let (n, r1) ← rLen lb ub r0
-    body n true r1
+    -- only the unconstrained length determinant announces fragments
+    body n (lb.isNone && ub.isNone) r1
 
 end Asn1Verif.Per
